@@ -167,6 +167,19 @@ func buildCorpus() [][]byte {
 			c = append(c, []byte(fmt.Sprintf(`{"id":"https://a.example/m","type":%q,%q:%s}`, typ, term, v)))
 		}
 	}
+	// nesting through every item-valued term, for every top type (a decoder that does repeated work per level shows as super-linear work)
+	for ti, term := range allTerms {
+		if !vmodel.ItemTerms[term] {
+			continue
+		}
+		for _, depth := range []int{12, 16} {
+			typ := topTypes[(ti+depth)%len(topTypes)]
+			for _, t := range []string{typ, "Question", "Create"} {
+				open := fmt.Sprintf(`{"id":"https://a.example/n","type":%q,%q:`, t, term)
+				c = append(c, []byte(strings.Repeat(open, depth)+`"https://a.example/leaf"`+strings.Repeat("}", depth)))
+			}
+		}
+	}
 	// every single byte, and some two-byte inputs
 	for b := 0; b < 256; b++ {
 		c = append(c, []byte{byte(b)})
@@ -246,6 +259,11 @@ const heapHighWater = 768 << 20
 
 var heapFlagged bool
 
+// work bound for the JSON and text decoders: heap objects allocated <= workBase + workPerByte * len(input)
+const workBase, workPerByte = 20000, 40
+
+var workMaxRatio float64
+
 // decodeOnce runs one entry point on one input under the monitors, then the follow-up operations on what it returned.
 func decodeOnce(c *Ctx, e decodeEntry, in []byte, followUps bool) {
 	var res any
@@ -272,6 +290,16 @@ func decodeOnce(c *Ctx, e decodeEntry, in []byte, followUps bool) {
 	if alloc := ms1.TotalAlloc - ms0.TotalAlloc; !strings.Contains(decoderFamily(e.Name), "gob") && alloc > uint64(allocBase+allocPerByte*len(in)) {
 		c.Fail("alloc|"+e.Name+"|"+inputClass(in), fmt.Sprintf("%s allocated %d bytes for a %d byte input (bound %d)", e.Name, alloc, len(in), allocBase+allocPerByte*len(in)),
 			map[string]any{"entry": e.Name, "input_len": len(in), "allocated": alloc, "input_prefix": clipB(in[:minInt(len(in), 200)])})
+	}
+	// work meter: the number of heap objects allocated is a deterministic proxy for the work done; it must stay proportional to the input
+	if mallocs := ms1.Mallocs - ms0.Mallocs; !strings.Contains(decoderFamily(e.Name), "gob") {
+		if r := float64(mallocs) / float64(len(in)+256); r > workMaxRatio {
+			workMaxRatio = r
+		}
+		if mallocs > uint64(workBase+workPerByte*len(in)) {
+			c.Fail("work|"+decoderFamily(e.Name)+"|super-linear", fmt.Sprintf("%s allocated %d heap objects for a %d byte input (bound %d): the work is out of proportion to the input", e.Name, mallocs, len(in), workBase+workPerByte*len(in)),
+				map[string]any{"entry": e.Name, "input_len": len(in), "mallocs": mallocs, "input_prefix": clipB(in[:minInt(len(in), 200)])})
+		}
 	}
 	if err != nil {
 		c.Count("errors-returned", 1)
@@ -313,6 +341,9 @@ func init() {
 			"each call runs under recover() with two memory meters (cumulative allocation <= 32 MiB + 16 KiB/byte for the JSON and text decoders; heap obtained from the OS <= 768 MiB for every decoder, with GC percent 25), process-fatal outcomes (stack overflow, runtime faults, sanitizer reports, hangs) are attributed by the supervisor through the write-ahead record; every returned value then goes through ~45 follow-up operations (inspect, compare, both encoders, format, deref, On*/To*); distinct = (entry point, input hash); non-trivial = input that is not rejected at the first byte (valid JSON, broken JSON starting like JSON, or a decodable gob prefix)",
 			ne, len(corpus), len(mistypedValues)),
 		WatchdogS: 900,
+		Finish: func(c *Ctx) {
+			c.Count("max-mallocs-per-256+byte-x1000", int64(workMaxRatio*1000))
+		},
 		Init: func(c *Ctx) {
 			debug.SetGCPercent(25) // keep the heap close to the live set so that the high-water meter means something
 		},
